@@ -273,7 +273,15 @@ def check_scenario(ctx, scn, mdl, inc_hash, compiler, stats, verbose=False):
     head, calls, complete = parse_trace(out)
     mhead, mcalls, mcomplete = parse_trace(mout)
     if verbose:
-        print('--- implementation (%s)\n%s--- model\n%s' % (binp, out, mout))
+        only = verbose.get('id') if isinstance(verbose, dict) else None
+        def show(hd, cs, raw):
+            if only is None or only not in cs:
+                return raw if only is None else '\n'.join(hd) + '\n(call %s not reached)\n' % only + raw[-600:]
+            return '\n'.join(hd + cs[only]) + '\n'
+        print('--- implementation (%s, exit %d)\n%s' % (binp, rc, show(head, calls, out)))
+        if rc != 0:
+            print('--- implementation stderr (tail)\n' + err[-1500:])
+        print('--- model (extracted from Coq)\n%s' % show(mhead, mcalls, mout))
     nviol = 0
     # objects: number of subobjects found by the constructors == named by the language's conversions
     for l in head:
@@ -303,8 +311,9 @@ def check_scenario(ctx, scn, mdl, inc_hash, compiler, stats, verbose=False):
         done = [cid for cid in calls if calls[cid] and calls[cid][-1].startswith('E ')]
         bad = [c for c in scn['calls'] if c['id'] not in done]
         first = bad[0] if bad else None
-        report(ctx, '%s: program exits %d %s (%s)' % (scn['name'], rc, 'during call %d' % first['id'] if first else 'after the calls',
-                                                     (err.strip().split('\n') or [''])[0][:300]),
+        why = [l for l in err.split('\n') if 'ERROR' in l or 'runtime error' in l or 'what()' in l or 'Assertion' in l]
+        why = (why or [l for l in err.strip().split('\n') if l.strip()] or [''])[0].strip()
+        report(ctx, '%s: program exits %d %s (%s)' % (scn['name'], rc, 'during call %d' % first['id'] if first else 'after the calls', why[:300]),
                dict(replay, call=first, expected=exps.get(first['id']) if first else None, stdout_tail=out[-1500:], stderr_tail=err[-3000:]), stats)
         nviol += 1
     # correspondence with the extracted model
@@ -329,7 +338,8 @@ def check_scenario(ctx, scn, mdl, inc_hash, compiler, stats, verbose=False):
 def report(ctx, summary, replay, stats):
     stats['violations'] += 1
     if stats['violations'] > 12:
-        vlib.log('  (more) ' + summary[:200])
+        if stats['violations'] <= 16:
+            vlib.log('  (more, no replay file written) ' + summary[:200])
         return
     src = replay.get('source')
     ctx.violation(summary, replay)
@@ -363,7 +373,9 @@ def main():
         for cid in sorted(exps):
             if r.get('call') is None or r['call'].get('id') == cid:
                 print(json.dumps({'call': cid, **exps[cid]}, sort_keys=True))
-        check_scenario(ctx, scn, mdl, inc_hash, comp, stats, verbose=True)
+        ctx._nrep = 1000      # do not overwrite the file being replayed
+        check_scenario(ctx, scn, mdl, inc_hash, comp, stats, verbose=r.get('call') or True)
+        print('--- verdict: %d violation(s) of the property on this scenario' % stats['violations'])
         finish(ctx, stats, 1)
         return
 
